@@ -257,7 +257,11 @@ fn build(t: &Term, ctx: &Rc<Ctx>) -> Node {
                 0 => Box::new(Adapt { op: inner.apply_n_times::<0>(), fin: ident, fout: arr_out::<0> }),
                 1 => Box::new(Adapt { op: inner.apply_n_times::<1>(), fin: ident, fout: arr_out::<1> }),
                 2 => Box::new(Adapt { op: inner.apply_twice(), fin: ident, fout: arr_out::<2> }),
-                _ => Box::new(Adapt { op: inner.apply_n_times::<3>(), fin: ident, fout: arr_out::<3> }),
+                3 => Box::new(Adapt { op: inner.apply_n_times::<3>(), fin: ident, fout: arr_out::<3> }),
+                5 => Box::new(Adapt { op: inner.apply_n_times::<5>(), fin: ident, fout: arr_out::<5> }),
+                8 => Box::new(Adapt { op: inner.apply_n_times::<8>(), fin: ident, fout: arr_out::<8> }),
+                17 => Box::new(Adapt { op: inner.apply_n_times::<17>(), fin: ident, fout: arr_out::<17> }),
+                _ => Box::new(Adapt { op: inner.apply_n_times::<33>(), fin: ident, fout: arr_out::<33> }),
             }
         }
         Term::Identity => Box::new(Adapt { op: Identity, fin: ident, fout: ident }),
@@ -320,7 +324,7 @@ fn eval(t: &Term, input: V, rng: &mut TraceRng, st: &mut RefState) -> Result<V, 
         }
         Term::Repeat(n, f) => {
             let mut out = Vec::new();
-            for _ in 0..(*n).min(3) {
+            for _ in 0..*n {
                 out.push(eval(f, input.clone(), rng, st)?);
             }
             Ok(V::Arr(out))
@@ -356,7 +360,7 @@ fn gen_term(g: &mut Xo, depth: usize, next_leaf: &mut usize) -> Term {
         5 => Term::MapPair(sub(g)),
         6 => Term::MapArr(sub(g)),
         7 => Term::MapVec(sub(g)),
-        _ => Term::Repeat(g.usize_below(4), sub(g)),
+        _ => Term::Repeat(if g.chance(1, 6) { *g.pick(&[5usize, 8, 17, 33]) } else { g.usize_below(4) }, sub(g)),
     }
 }
 
@@ -364,7 +368,7 @@ fn gen_input(g: &mut Xo) -> V {
     match g.below(4) {
         0 => V::I(g.range(-9, 9)),
         1 => V::Pair(Box::new(V::I(g.range(0, 9))), Box::new(V::I(g.range(0, 9)))),
-        2 => V::Arr((0..g.usize_below(4)).map(|_| V::I(g.range(0, 9))).collect()),
+        2 => V::Arr((0..if g.chance(1, 5) { *g.pick(&[7usize, 16, 33, 64, 100]) } else { g.usize_below(4) }).map(|_| V::I(g.range(0, 9))).collect()),
         _ => V::I(0),
     }
 }
@@ -375,7 +379,7 @@ fn term_case(t: &Term, input: &V, seed: u64, rep: &mut Report) {
     let mut r0 = TraceRng::new(seed);
     let _ = eval(t, input.clone(), &mut r0, &mut st);
     let m = st.counter;
-    if m > 60 {
+    if m > 130 {
         return; // keep fault enumeration bounded
     }
     rep.distinct(fnv_str(&format!("{}|{}", t.render(), input.render())));
